@@ -270,6 +270,41 @@ func pkgFuncs(p *Program, rel string) []*ssa.Function {
 	return out
 }
 
+// keyPureRule: the named hdkeychain functions write nothing reachable from their arguments or the receiver (the lazily
+// filled public-key memo field excepted) and no package-level state.
+func keyPureRule(p *Program, r *Report, rule string, names []string, what string) {
+	ef := NewEffects(p)
+	for _, name := range names {
+		fn := p.Func("hdkeychain", name)
+		if fn == nil {
+			r.Unresolved(rule, "hdkeychain."+name)
+			continue
+		}
+		var bad []string
+		for _, e := range ef.WriteEffects(fn) {
+			switch e.Root.Kind {
+			case rkParam, rkFreeVar:
+				// the lazily filled public-key memo of a private key is the one sanctioned write (C15.memo keeps it coherent)
+				if e.Root.Idx == 0 && fn.Signature.Recv() != nil && e.Root.Path == "*.pubKey" {
+					continue
+				}
+				bad = append(bad, fmt.Sprintf("%s → %s at %s", e.What, e.Root, p.Pos(e.Pos)))
+			case rkUnknown:
+				bad = append(bad, fmt.Sprintf("%s → unresolved target at %s", e.What, p.Pos(e.Pos)))
+			case rkGlobal:
+				bad = append(bad, fmt.Sprintf("%s → package-level %s at %s", e.What, e.Root, p.Pos(e.Pos)))
+			}
+		}
+		sort.Strings(bad)
+		bad = dedup(bad)
+		how := "no store, copy or writer call targets the arguments, the key's buffers or package-level state (the public-key memo field excepted)"
+		if len(bad) > 0 {
+			how = strings.Join(bad, "; ")
+		}
+		r.Add(rule, FnName(fn), what, fn.Pos(), len(bad) == 0, how)
+	}
+}
+
 func checkC04(p *Program, r *Report) {
 	sharedStateRule(p, r, NewEffects(p), "C04.shared", []string{"hdkeychain/extendedkey.go", "hash160.go"})
 	r.Floor("C04.shared", 10)
@@ -290,39 +325,8 @@ func checkC04(p *Program, r *Report) {
 	}
 	// ---- C04.pure: derivation reads its inputs, it does not write them (a wiped seed or a scratch buffer kept in the
 	// parent makes the next derivation from the same seed / parent differ)
-	{
-		ef := NewEffects(p)
-		for _, name := range []string{"NewMaster", "(*ExtendedKey).Child", "(*ExtendedKey).Neuter"} {
-			fn := p.Func("hdkeychain", name)
-			if fn == nil {
-				r.Unresolved("C04.pure", "hdkeychain."+name)
-				continue
-			}
-			var bad []string
-			for _, e := range ef.WriteEffects(fn) {
-				switch e.Root.Kind {
-				case rkParam, rkFreeVar:
-					// the lazily filled public-key memo of a private key is the one sanctioned write (C15.memo keeps it coherent)
-					if e.Root.Idx == 0 && fn.Signature.Recv() != nil && strings.HasPrefix(e.Root.Path, "*.pubKey") && !strings.Contains(strings.TrimPrefix(e.Root.Path, "*.pubKey"), ".") && strings.TrimPrefix(e.Root.Path, "*.pubKey") == "" {
-						continue
-					}
-					bad = append(bad, fmt.Sprintf("%s → %s at %s", e.What, e.Root, p.Pos(e.Pos)))
-				case rkUnknown:
-					bad = append(bad, fmt.Sprintf("%s → unresolved target at %s", e.What, p.Pos(e.Pos)))
-				case rkGlobal:
-					bad = append(bad, fmt.Sprintf("%s → package-level %s at %s", e.What, e.Root, p.Pos(e.Pos)))
-				}
-			}
-			sort.Strings(bad)
-			bad = dedup(bad)
-			how := "no store, copy or writer call targets the seed, the parent key's buffers or package-level state (the public-key memo field excepted)"
-			if len(bad) > 0 {
-				how = strings.Join(bad, "; ")
-			}
-			r.Add("C04.pure", FnName(fn), "derivation leaves its inputs untouched", fn.Pos(), len(bad) == 0, how)
-		}
-		r.Floor("C04.pure", 3)
-	}
+	keyPureRule(p, r, "C04.pure", []string{"NewMaster", "(*ExtendedKey).Child", "(*ExtendedKey).Neuter"}, "derivation leaves its inputs untouched")
+	r.Floor("C04.pure", 3)
 	r.Floor("C04.pad", 1)
 
 	child := p.Func("hdkeychain", "(*ExtendedKey).Child")
